@@ -190,7 +190,21 @@ def _prec_scenarios(n1, n2):
     for lv, m in sorted(_LEVEL_REPS.items()):
         for vi in range(len(_CHAIN_VALS)):
             out.append(_paren_scenario(n1, m, n2, vi))
-    return out
+    return out + _paren_family()
+
+
+_PAREN_FAMILY = None
+
+
+def _paren_family():
+    """`a o1 (b m c) o2 d` for every triple of level representatives in which o2 binds tighter than o1 and than m - the shape in
+    which a group that is not kept opaque changes the value - independent of the operators a model happened to choose"""
+    global _PAREN_FAMILY
+    if _PAREN_FAMILY is None:
+        reps = sorted(_LEVEL_REPS.items())
+        _PAREN_FAMILY = [_paren_scenario(o1, m, o2, 0) for l1, o1 in reps for lm, m in reps for l2, o2 in reps if l2 < l1 and l2 < lm]
+        _PAREN_FAMILY += [_paren_scenario(o1, m, o2, 2) for l1, o1 in reps for lm, m in reps for l2, o2 in reps if l2 < l1 and l2 <= lm and o2 not in ("Divide", "Reminder")][:60]
+    return _PAREN_FAMILY
 
 
 def _paren_scenario(o1, m, o2, vi=0):
